@@ -481,6 +481,15 @@ func (m *objectCacheStorageMiddleware) CompleteMultipartUpload(ctx context.Conte
 	return result, nil
 }
 
+func (m *objectCacheStorageMiddleware) TransitionObjectStorageClass(ctx context.Context, bucketName storage.BucketName, key storage.ObjectKey, targetStorageClass string, opts *storage.TransitionObjectStorageClassOptions) error {
+	if err := m.Next.TransitionObjectStorageClass(ctx, bucketName, key, targetStorageClass, opts); err != nil {
+		return err
+	}
+	// The cached head/object carry the storage class.
+	m.invalidateObjectCaches(ctx, bucketName, key)
+	return nil
+}
+
 func (m *objectCacheStorageMiddleware) invalidateObjectCaches(ctx context.Context, bucketName storage.BucketName, key storage.ObjectKey) {
 	objKey := objectCacheKey(bucketName, key)
 	if err := m.cache.Remove(objKey); err != nil {
